@@ -140,6 +140,14 @@ def fixed_sessions(rng, tables):
             return steps
 
         makers.append((False, mk_pin))
+    # the budget counts every request answered with USERAUTH_FAILURE, whatever value the application used to say no
+    for odd in (None, -1, "no", 3):
+        def mk_odd(sid, odd=odd):
+            gen = L.Gen(rng, "c16", tables)
+            user = gen.user
+            return [pw(gen, user, odd) for _ in range(10)] + [pw(gen, user, 0)]
+
+        makers.append((False, mk_odd))
     for before in (3, 9):
         def mk_cap(sid, before=before):
             gen = L.Gen(rng, "c16", tables)
@@ -159,7 +167,7 @@ def run(ctx):
     ctx.rule = ("scripted sessions of 1-15 messages from a raw client (USERAUTH_REQUESTs mixing 5 usernames, services, "
                 "7 methods incl. publickey with real signatures and stub-GSS methods; info responses; service requests; "
                 "connection-layer and unknown types; client-initiated key re-exchanges; truncated/non-UTF-8 payloads) against a real server Transport "
-                "whose callbacks answer success/partial/failure/odd codes per step. distinct = distinct "
+                "whose callbacks answer success/partial/failure or 'no' in other ways (None, -1, a string, private codes) per step. distinct = distinct "
                 "(message, outcome) sequences; non-trivial = the session contains a wrong service, a username "
                 "change after pinning, a partial success, a key re-exchange, or reaches the failure cap; the pin and the cap are "
                 "tracked per connection, across re-exchanges")
